@@ -1368,6 +1368,8 @@ class ArgumentParser(ParserDeprecations, ActionsContainer, ArgumentLinking, argp
                 if isinstance(value, Namespace):
                     new_keys = [del_clash_mark(k) for k in value.__dict__.keys()]
                     keys += [key + "." + k for k in new_keys if key + "." + k not in keys]
+                elif action is not None and split_key_leaf(key)[-1] != action.dest:
+                    raise TypeError(f'Expected the settings of subcommand "{key}" to be a dict, but got: {value!r}')
                 cfg[key] = value
                 continue
 
